@@ -400,7 +400,7 @@ func vfIntersect(a, b []int) []int {
 func TestVerifC03Probes(t *testing.T) {
 	vfSetup(t)
 	c := ev.For("C03")
-	c.Rule("probes: per case one generated bridge (seed), 2-5 probe connections of generated classes (empty, random bytes up to 20000, valid handshake truncated / extended / one bit flipped in representative, padding, mark or MAC, wrong hour +-2/3, wrong identity, byte-identical replay of an accepted handshake, low-order representatives with a valid MAC), each released in generated segments with the armed deadline optionally fired in between, ended by peer disconnect or by firing the virtual deadlines; the last connection goes to a second factory built from the same seed; oracle: zero bytes written, everything sent is consumed, close only after the last armed deadline fired (unless the peer left first), deadline armed before the first read, final deadline = accept + 30 s + d with one whole d in 0..59 common to all connections of the seed; non-trivial = any class other than 'empty'; fingerprint = class, parameters, plan")
+	c.Rule("probes: per case one generated bridge (seed), 2-5 probe connections of generated classes (empty, random bytes up to 20000, valid handshake truncated / extended / one bit flipped in representative, padding, mark or MAC, wrong hour +-2/3, wrong identity, byte-identical replay of an accepted handshake, low-order representatives with a valid MAC), each released in generated segments with the armed deadline optionally fired in between, ended by peer disconnect or by firing the virtual deadlines; the last connection goes to a second factory built from the same seed; oracle: accepted handshakes are remembered for at least the three hours they stay valid, zero bytes written, everything sent is consumed, close only after the last armed deadline fired (unless the peer left first), deadline armed before the first read, final deadline = accept + 30 s + d with one whole d in 0..59 common to all connections of the seed; non-trivial = any class other than 'empty'; fingerprint = class, parameters, plan")
 	c.Assume("deadline values are judged as intervals around the server's own clock reading (a few ms wide); cases measured on a stalled machine (> 0.5 s between accept and first deadline call) are discarded and counted")
 	for _, cl := range vfProbeClasses {
 		c.Floor("probe-"+cl+"/probe", 0.03)
@@ -419,6 +419,17 @@ func TestVerifC03Probes(t *testing.T) {
 			rt.Fatalf("VIOL[c03-serverfactory]: %v", err)
 		}
 		hour0 := vfHourNow()
+		// "or that replays one": a handshake stamped with hour E verifies while the
+		// server's clock shows E-1..E+1, i.e. for up to three hours, so a replay
+		// stays a replay only if it is remembered that long (the wait itself cannot
+		// be performed here; expiry semantics are C11's)
+		if osf, ok := sf.(*obfs4ServerFactory); ok && osf.replayFilter != nil {
+			if fv := reflect.ValueOf(osf.replayFilter).Elem().FieldByName("ttl"); fv.IsValid() && fv.Kind() == reflect.Int64 {
+				if ttl := time.Duration(fv.Int()); ttl < 3*time.Hour {
+					rt.Fatalf("VIOL[c03-replay-forgotten-within-window]: accepted handshakes are remembered for %v only, but stay valid for the hour window of up to 3h: a replay older than that is answered", ttl)
+				}
+			}
+		}
 		var prior []byte
 		var cand []int
 		haveCand := false
